@@ -187,3 +187,56 @@ Proof. exact (Net_props.C14_records_sound_refuted). Qed.
 
 Print Assumptions C14_records_agree_partial.
 Print Assumptions C14_records_sound_before_refresh_refuted.
+
+(* ---- records agree, both inclusions (package G, Net_proofs14..18): at a quiet state after a refresh the serving side's
+   want set for a connected requester EQUALS the requester's live wants — the last sentence of C14, for every reachable
+   net.  (The stale want that `…_before_refresh_refuted` exhibits is gone after the refresh:
+   Net_props2.C14_records_sound_nonvacuous_stale.) *)
+From BS Require Import Net Net_proofs Net_proofs2 Net_proofs5 Net_proofs7 Net_proofs9 Net_proofs10 Net_proofs13 Net_props Net_proofs14 Net_proofs15 Net_proofs16 Net_proofs17 Net_proofs18 Server_inv Net_props2.
+From Coq Require Import ZArith Lia.
+Open Scope N_scope.
+
+Theorem C14_records_sound :
+  forall (Sz : N) (Hh : hash_fn),
+  32 <= Sz ->
+  forall (i j : N) (n : nat) (ops : list nop),
+  Forall (nop_good Sz Hh) ops ->
+  Forall (nop_wf Sz) ops ->
+  let s := fst (nrun Sz Hh (net_init n) ops) in
+  connected s i j = true ->
+  let r1 := settle Sz Hh s in
+  let r2 := refresh Sz Hh (fst r1) in
+  quietb (fst r1) = true ->
+  quietb (fst r2) = true ->
+  (length (wl_i i (fst r1)) <= 1024)%nat ->
+  forall (c : cid) (st : sstate),
+  server_of (fst r2) j = Some st -> wantsP (s_wants st) i c -> In c (wl_i i (fst r2)).
+Proof. exact (@Net_props2.C14_records_sound). Qed.
+
+Theorem C14_records_equal :
+  forall (Sz : N) (Hh : hash_fn),
+  32 <= Sz ->
+  forall (i j : N) (n : nat) (ops : list nop),
+  Forall (nop_good Sz Hh) ops ->
+  Forall (nop_wf Sz) ops ->
+  let s := fst (nrun Sz Hh (net_init n) ops) in
+  connected s i j = true ->
+  let r1 := settle Sz Hh s in
+  let r2 := refresh Sz Hh (fst r1) in
+  quietb (fst r1) = true ->
+  quietb (fst r2) = true ->
+  (length (wl_i i (fst r1)) <= 1024)%nat ->
+  forall c : cid,
+  In c (wl_i i (fst r2)) <-> (exists st : sstate, server_of (fst r2) j = Some st /\ wantsP (s_wants st) i c).
+Proof. exact (@Net_props2.C14_records_equal). Qed.
+
+Theorem C14_reachable_rv :
+  forall (Sz : N) (Hh : hash_fn),
+  32 <= Sz ->
+  forall (n : nat) (ops : list nop),
+  Forall (nop_good Sz Hh) ops -> Forall (nop_wf Sz) ops -> net_rv (fst (nrun Sz Hh (net_init n) ops)).
+Proof. exact (@Net_props2.C14_reachable_rv). Qed.
+
+Print Assumptions C14_records_sound.
+Print Assumptions C14_records_equal.
+Print Assumptions C14_reachable_rv.
